@@ -140,6 +140,9 @@ func main() {
 			sb, _ := json.Marshal(st)
 			rec.Log("step", "i", i, "step", string(sb))
 			if err := r.Exec(st); err != nil {
+				if err == errStuck {
+					break // straight to the final reads
+				}
 				fail(err)
 				return
 			}
